@@ -40,7 +40,10 @@ static INIT: Once = Once::new();
 
 #[unsafe(no_mangle)]
 pub extern "C" fn redirectionio_log_init_stderr() {
-    stderrlog::new().init().unwrap();
+    // A logger may already be installed (init called again on reload), this is not fatal
+    if let Err(err) = stderrlog::new().init() {
+        log::warn!("cannot init stderr logger: {}", err);
+    }
 }
 
 #[unsafe(no_mangle)]
